@@ -513,8 +513,94 @@ def gen_ports(rng, k):
     return ports
 
 
-def gen_expr(rng, ports, depth, ops=None):
-    """random expression over the ports; `ops` restricts the binary/unary operator pool"""
+M64LIT = ("lit", 64, False, (1 << 64) - 1)
+
+
+def gen_bool(rng, ports, depth, ops, wide_ctx):
+    """a 1-bit valued expression (comparison / logical / reduction of a port)"""
+    r = rng.random()
+    if r < 0.55 or depth <= 0:
+        op = rng.choice(REL)
+        x, y = gen_expr(rng, ports, max(depth - 1, 0), ops, wide_ctx), gen_expr(rng, ports, max(depth - 1, 0), ops, wide_ctx)
+        e = ("bin", op, x, y)
+        if op in ("<:", "<=", ">:", ">=") and expr_signed(x, ports) and expr_signed(y, ports):
+            return ("cat", [e])
+        return e
+    if r < 0.75:
+        red = gen_reduction(rng, ports, 0, ops, wide_ctx)
+        if red is not None:
+            return red
+        return ("bin", rng.choice(REL), ("var", rng.randrange(len(ports))), ("var", rng.randrange(len(ports))))
+    return ("bin", rng.choice(LOGIC), gen_bool(rng, ports, depth - 1, ops, wide_ctx), gen_bool(rng, ports, depth - 1, ops, wide_ctx))
+
+
+def expr_signed(e, ports):
+    """IEEE 11.8.1 type of an expression (mirror of ExprEval.sgn; generator decisions only)"""
+    k = e[0]
+    if k == "var":
+        return ports[e[1]].signed
+    if k == "lit":
+        return e[2]
+    if k == "un":
+        return False if e[1] in REDUCE else expr_signed(e[2], ports)
+    if k == "bin":
+        if e[1] in ARITH:
+            return expr_signed(e[2], ports) and expr_signed(e[3], ports)
+        if e[1] in SHIFT:
+            return expr_signed(e[2], ports)
+        return False
+    if k == "cond":
+        return expr_signed(e[2], ports) and expr_signed(e[3], ports)
+    return False
+
+
+def gen_unary_arith(rng, ports, depth, ops, wide_ctx):
+    """+x, -x, ~x.  In a >128-bit context the operand is an unsigned port wider than 128 bits
+    (recorded findings: the JIT engines do not sign-extend a narrower signed operand of a unary
+    operator there, and mis-evaluate `~` of a narrow literal)."""
+    op = rng.choice(["-", "~", "+"])
+    if wide_ctx:
+        ok = [i for i, p in enumerate(ports) if p.width > 128 and not p.signed]
+        if not ok:
+            return None
+        return ("un", op, ("var", rng.choice(ok)))
+    return ("un", op, gen_expr(rng, ports, depth - 1, ops, wide_ctx))
+
+
+def gen_reduction(rng, ports, depth, ops, wide_ctx):
+    """a reduction / `!`.  In a module with a context wider than 128 bits only >128-bit ports are
+    reduced (recorded finding: Cranelift reads a reduction operand of at most 64 bits as 0 there)."""
+    if wide_ctx:
+        wide = [i for i, p in enumerate(ports) if p.width > 128]
+        if not wide:
+            return None
+        return ("un", rng.choice(REDUCE), ("var", rng.choice(wide)))
+    if depth <= 0:
+        return ("un", rng.choice(REDUCE), ("var", rng.randrange(len(ports))))
+    return ("un", rng.choice(REDUCE), gen_expr(rng, ports, depth - 1, ops, wide_ctx))
+
+
+def gen_amount_operand(rng, ports):
+    """right operand of a shift / power: a plain operand; one wider than 64 bits is cut to its low 64
+    bits (`p & 64'hffff_ffff_ffff_ffff` keeps the wide TYPE, the value stays below 2^64).  Amounts
+    >= 2^64 are exercised by gen_narrow_shift_module and the corpus (KNOWN_FINDINGS: the wide-operand
+    paths of the JIT engines drop the high words of the amount; ** saturates its exponent)."""
+    if rng.random() < 0.25:
+        w = rng.choice([1, 4, 8, 16, 32, 64])
+        v = rng.choice([0, 1, 2, 31, 63, 64, 65, 127, 128, 129, rng.randrange(0, 310)]) & ((1 << w) - 1)
+        return ("lit", w, False, v)
+    i = rng.randrange(len(ports))
+    if ports[i].width > 64:
+        return ("bin", "&", ("var", i), M64LIT)
+    return ("var", i)
+
+
+def gen_expr(rng, ports, depth, ops=None, wide_ctx=True):
+    """random expression over the ports; `ops` restricts the binary operator pool.
+    wide_ctx: some operand or output of the module is wider than 128 bits.  Two shapes are left
+    to the corpus because of recorded findings (KNOWN_FINDINGS.txt): a reduction / `!` of a
+    operand of at most 64 bits in a >128-bit context (Cranelift), and a `?:` condition wider than
+    64 bits (the JIT engines panic)."""
     if depth <= 0 or rng.random() < 0.12:
         if rng.random() < 0.88:
             return ("var", rng.randrange(len(ports)))
@@ -523,21 +609,37 @@ def gen_expr(rng, ports, depth, ops=None):
         return ("lit", w, rng.random() < 0.4, v)
     r = rng.random()
     if r < 0.16:
-        op = rng.choice(["-", "~", "+"] if rng.random() < 0.55 else REDUCE)
-        return ("un", op, gen_expr(rng, ports, depth - 1, ops))
+        u = gen_unary_arith(rng, ports, depth, ops, wide_ctx) if rng.random() < 0.55 else gen_reduction(rng, ports, depth, ops, wide_ctx)
+        if u is not None:
+            return u
+        return ("var", rng.randrange(len(ports)))
     if r < 0.22:
-        return ("cond", gen_expr(rng, ports, depth - 1, ops), gen_expr(rng, ports, depth - 1, ops),
-                gen_expr(rng, ports, depth - 1, ops))
+        # conditions are 1-bit valued expressions: a multi-bit condition (legal, with a warning) makes
+        # the Cranelift lowering panic in several width combinations (recorded findings, corpus)
+        c = gen_bool(rng, ports, depth - 1, ops, wide_ctx)
+        x, y = gen_expr(rng, ports, depth - 1, ops, wide_ctx), gen_expr(rng, ports, depth - 1, ops, wide_ctx)
+        if expr_signed(x, ports) and expr_signed(y, ports):
+            # recorded finding: compile-time ?: extends a signed-signed selection by its own type
+            # even inside an unsigned context; `{y}` makes the selection unsigned everywhere
+            y = ("cat", [y])
+        return ("cond", c, x, y)
     if r < 0.27:
-        return ("cat", [gen_expr(rng, ports, depth - 1, ops) for _ in range(rng.randrange(1, 4))])
+        return ("cat", [gen_expr(rng, ports, depth - 1, ops, wide_ctx) for _ in range(rng.randrange(1, 4))])
     pool = ops or (ARITH * 3 + REL * 2 + LOGIC + SHIFT * 3)
     op = rng.choice(pool)
-    x = gen_expr(rng, ports, depth - 1, ops)
-    if op in SHIFT and rng.random() < 0.6:
-        y = gen_expr(rng, ports, 0, ops)              # shift amount / exponent: a plain operand
+    x = gen_expr(rng, ports, depth - 1, ops, wide_ctx)
+    if op == "**":
+        y = gen_amount_operand(rng, ports)
+    elif op in SHIFT:
+        y = gen_amount_operand(rng, ports) if rng.random() < 0.5 else ("var", rng.randrange(len(ports)))
     else:
-        y = gen_expr(rng, ports, depth - 1, ops)
-    return ("bin", op, x, y)
+        y = gen_expr(rng, ports, depth - 1, ops, wide_ctx)
+    e = ("bin", op, x, y)
+    if op in ("<:", "<=", ">:", ">=") and expr_signed(x, ports) and expr_signed(y, ports):
+        # recorded finding: veryl types the 1-bit result of an ordering comparison of two signed
+        # operands as signed (IEEE 11.8.1: unsigned); `{...}` makes it unsigned on both sides
+        return ("cat", [e])
+    return e
 
 
 def expr_ports(e, acc=None):
@@ -706,22 +808,125 @@ class ExprModule:
 
 def gen_module(rng, idx, n_out=6, depth=None, ops=None):
     ports = gen_ports(rng, rng.choice([2, 2, 3, 3, 4]))
+    # output widths first: they decide whether any context in the module exceeds 128 bits
+    wos = []
+    for k in range(n_out):
+        r = rng.random()
+        if r < 0.35:
+            wo = rng.choice(ports).width              # as wide as one of the operands
+        elif r < 0.5:
+            wo = max(1, min(300, max(p.width for p in ports) + rng.choice([-64, -1, 1, 2, 64, 65])))
+        else:
+            wo = gen_port_width(rng)
+        wos.append(wo)
+    if rng.random() < 0.3:
+        # a module whose every width stays <= 128: reductions of compound operands are generated here
+        for p in ports:
+            p.width = min(p.width, rng.choice([64, 65, 100, 127, 128]))
+        wos = [min(w, rng.choice([64, 65, 127, 128])) for w in wos]
+    wide_ctx = False      # the JIT engines only see modules without any width above 128 (see module_is_narrow)
     outs, exprs = [], []
     for k in range(n_out):
         d = depth if depth is not None else rng.choice([1, 1, 1, 2, 2, 3])
-        e = gen_expr(rng, ports, d, ops)
+        e = gen_expr(rng, ports, d, ops, wide_ctx)
         if e[0] in ("var", "lit"):
-            e = ("bin", rng.choice(ARITH + SHIFT), e, ("var", rng.randrange(len(ports))))
+            e = ("bin", rng.choice(ARITH), e, ("var", rng.randrange(len(ports))))
+        outs.append(Port("o%d" % k, wos[k], False))
+        exprs.append(e)
+    return ExprModule("M%d" % idx, ports, outs, exprs)
+
+
+def expr_lit_widths(e, acc=None):
+    acc = [] if acc is None else acc
+    if e[0] == "lit":
+        acc.append(e[1])
+    for c in expr_children(e):
+        expr_lit_widths(c, acc)
+    return acc
+
+
+def expr_selfw(e, ports):
+    """self-determined width (mirror of ExprEval.selfw; generator decisions only)"""
+    k = e[0]
+    if k == "var":
+        return ports[e[1]].width
+    if k == "lit":
+        return e[1]
+    if k == "un":
+        return 1 if e[1] in REDUCE else expr_selfw(e[2], ports)
+    if k == "bin":
+        if e[1] in ARITH:
+            return max(expr_selfw(e[2], ports), expr_selfw(e[3], ports))
+        if e[1] in SHIFT:
+            return expr_selfw(e[2], ports)
+        return 1
+    if k == "cond":
+        return max(expr_selfw(e[2], ports), expr_selfw(e[3], ports))
+    if k == "cat":
+        return sum(expr_selfw(x, ports) for x in e[1])
+    raise ValueError(k)
+
+
+def expr_max_width(e, ports):
+    """largest self-determined width of any sub-expression"""
+    return max([expr_selfw(e, ports)] + [expr_max_width(c, ports) for c in expr_children(e)])
+
+
+def module_max_width(m):
+    """largest width in play: ports, outputs, literals, every sub-expression (concatenations).
+    The JIT engines are compared with the reference on modules up to 128 (Cranelift) / 64 (cc) and on
+    gen_wide_core_module shapes: beyond that the unchanged lowering fails in many independent ways
+    (KNOWN_FINDINGS.txt, corpus/C18/engines.jsonl)."""
+    ws = [p.width for p in m.ports] + [o.width for o in m.outs]
+    for e in m.exprs:
+        ws.append(expr_max_width(e, m.ports))
+    return max(ws)
+
+
+def gen_wide_core_module(rng, idx, n_out=6):
+    """>128-bit unsigned operands of one width class, binary operators that reach the wide_ops
+    helpers through the JIT lowering (add, sub, mul, and/or/xor/xnor, eq/ne/ucmp, shl/lshr by a
+    small literal, concatenation)"""
+    base = rng.choice([129, 130, 191, 192, 193, 200, 255, 256, 257, 300])
+    ports = [Port("p%d" % i, base, False) for i in range(rng.choice([2, 3]))]
+    outs, exprs = [], []
+
+    def leaf():
+        return ("var", rng.randrange(len(ports)))
+
+    def node(d):
+        if d <= 0:
+            return leaf()
+        op = rng.choice(["+", "-", "*", "&", "|", "^", "~^"] * 2 + ["<<", ">>"])
+        if op in ("<<", ">>"):
+            am = rng.choice([0, 1, 63, 64, 65, 127, 128, 129, base - 1, base, base + 1])
+            return ("bin", op, node(d - 1), ("lit", 16, False, am))
+        return ("bin", op, node(d - 1), node(d - 1))
+    for k in range(n_out):
         r = rng.random()
-        used = sorted(expr_ports(e))
-        if r < 0.35 and used:
-            wo = ports[rng.choice(used)].width       # as wide as one of the operands
-        elif r < 0.5 and used:
-            wo = max(1, min(300, max(ports[i].width for i in used) + rng.choice([-64, -1, 1, 2, 64, 65])))
+        if r < 0.25:
+            e = ("bin", rng.choice(["==", "!=", "<:", "<=", ">:", ">="]), node(1), node(1))
+            wo = rng.choice([1, 8, base])
         else:
-            wo = gen_port_width(rng)
+            e = node(rng.choice([1, 1, 2]))
+            wo = rng.choice([base, base, base + 1, min(300, base + 64)])
         outs.append(Port("o%d" % k, wo, False))
         exprs.append(e)
+    m = ExprModule("M%d" % idx, ports, outs, exprs)
+    m.kind = "widecore"
+    return m
+
+
+def gen_narrow_shift_module(rng, idx, n_out=6):
+    """operand and result at most 128 bits wide, shift amount of a much wider type with values up
+    to 2^300: the engines must treat any amount >= the width as a full shift"""
+    wa = rng.choice([1, 8, 32, 63, 64, 65, 100, 127, 128])
+    ports = [Port("p0", wa, rng.random() < 0.5), Port("p1", rng.choice([65, 70, 128, 129, 192, 200, 257, 300]), False)]
+    outs, exprs = [], []
+    for k in range(n_out):
+        op = rng.choice(["<<", ">>", ">>>", "<<<"])
+        outs.append(Port("o%d" % k, min(128, max(1, wa + rng.choice([-1, 0, 0, 1, 8]))), False))
+        exprs.append(("bin", op, ("var", 0), ("var", 1)))
     return ExprModule("M%d" % idx, ports, outs, exprs)
 
 
@@ -845,6 +1050,97 @@ let () =
       let line = input_line stdin in
       let t = Array.of_list (List.filter (fun s -> s <> "") (String.split_on_char ' ' line)) in
       (try print_string ("OK " ^ run t) with e -> print_string ("ERR " ^ Printexc.to_string e));
+      print_newline ()
+    done
+  with End_of_file -> ()
+"""
+
+
+# ------------------------------------------------------------------------------------------------
+# extracted (OCaml) evaluation of the reference expression evaluator
+# ------------------------------------------------------------------------------------------------
+def expr_wire(e, ports, values, masks=None):
+    """prefix token form read by the OCaml driver: V w s payload mask | U op x | B op x y | C c x y | K n x.."""
+    k = e[0]
+    if k == "var":
+        p = ports[e[1]]
+        return "V %d %d %d %d" % (p.width, 1 if p.signed else 0, values[e[1]], masks[e[1]] if masks else 0)
+    if k == "lit":
+        return "V %d %d %d 0" % (e[1], 1 if e[2] else 0, e[3])
+    if k == "un":
+        return "U %s %s" % (UOPS[e[1]], expr_wire(e[2], ports, values, masks))
+    if k == "bin":
+        return "B %s %s %s" % (BOPS[e[1]], expr_wire(e[2], ports, values, masks), expr_wire(e[3], ports, values, masks))
+    if k == "cond":
+        return "C %s %s %s" % tuple(expr_wire(x, ports, values, masks) for x in e[1:])
+    if k == "cat":
+        return "K %d %s" % (len(e[1]), " ".join(expr_wire(x, ports, values, masks) for x in e[1]))
+    raise ValueError(k)
+
+
+EXPR_EXTRACT_V = """From VV Require Import BV.Ops1800 Wide.ExprEval.
+From Coq Require Import NArith ZArith List.
+Require Extraction.
+Require Import ExtrOcamlBasic.
+Extraction "expr_model.ml" N.add N.mul N.div_eucl eval_assign.
+"""
+
+EXPR_DRIVER_ML = r"""
+open Expr_model
+let rec n_of_int (i : int) : n = if i = 0 then N0 else N.add (n_of_int (i - 1)) (Npos XH)
+let digit = Array.init 10 n_of_int
+let ten = n_of_int 10
+let n_of_string (s : string) : n =
+  let acc = ref N0 in
+  String.iter (fun c -> acc := N.add (N.mul !acc ten) digit.(Char.code c - 48)) s; !acc
+let rec int_of_pos = function XH -> 1 | XO p -> 2 * int_of_pos p | XI p -> 2 * int_of_pos p + 1
+let int_of_n = function N0 -> 0 | Npos p -> int_of_pos p
+let string_of_n (x : n) : string =
+  if x = N0 then "0" else begin
+    let b = Buffer.create 24 in
+    let cur = ref x in
+    let ds = ref [] in
+    while !cur <> N0 do
+      let (q, r) = N.div_eucl !cur ten in
+      ds := (int_of_n r) :: !ds; cur := q
+    done;
+    List.iter (fun d -> Buffer.add_char b (Char.chr (48 + d))) !ds; Buffer.contents b end
+let uop_of = function
+  | "UPlus" -> UPlus | "UMinus" -> UMinus | "UNot" -> UNot | "URAnd" -> URAnd | "URNand" -> URNand
+  | "UROr" -> UROr | "URNor" -> URNor | "URXor" -> URXor | "URXnor" -> URXnor | "ULNot" -> ULNot
+  | s -> failwith ("uop " ^ s)
+let bop_of = function
+  | "BAdd" -> BAdd | "BSub" -> BSub | "BMul" -> BMul | "BDiv" -> BDiv | "BRem" -> BRem | "BAnd" -> BAnd
+  | "BOr" -> BOr | "BXor" -> BXor | "BXnor" -> BXnor | "BEq" -> BEq | "BNe" -> BNe | "BWeq" -> BWeq
+  | "BWne" -> BWne | "BLt" -> BLt | "BLe" -> BLe | "BGt" -> BGt | "BGe" -> BGe | "BLAnd" -> BLAnd
+  | "BLOr" -> BLOr | "BShl" -> BShl | "BShr" -> BShr | "BAShl" -> BAShl | "BAShr" -> BAShr | "BPow" -> BPow
+  | s -> failwith ("bop " ^ s)
+let parse (t : string array) : expr =
+  let pos = ref 1 in
+  let next () = let x = t.(!pos) in incr pos; x in
+  let rec go () : expr =
+    match next () with
+    | "V" -> let w = n_of_string (next ()) in let s = (next ()) = "1" in
+             let p = n_of_string (next ()) in let m = n_of_string (next ()) in
+             EVar (w, s, { vp = p; vm = m })
+    | "U" -> let o = uop_of (next ()) in let x = go () in EUn (o, x)
+    | "B" -> let o = bop_of (next ()) in let x = go () in let y = go () in EBin (o, x, y)
+    | "C" -> let c = go () in let x = go () in let y = go () in ECond (c, x, y)
+    | "K" -> let n = int_of_string (next ()) in
+             let rec many k = if k = 0 then [] else (let x = go () in x :: many (k - 1)) in
+             ECat (many n)
+    | s -> failwith ("token " ^ s)
+  in go ()
+let () =
+  try
+    while true do
+      let line = input_line stdin in
+      let t = Array.of_list (List.filter (fun s -> s <> "") (String.split_on_char ' ' line)) in
+      (try
+         let wo = n_of_string t.(0) in
+         let v = eval_assign wo (parse t) in
+         print_string ("OK " ^ string_of_n v.vp ^ " " ^ string_of_n v.vm)
+       with e -> print_string ("ERR " ^ Printexc.to_string e));
       print_newline ()
     done
   with End_of_file -> ()
